@@ -438,6 +438,16 @@ int qsx_more_commands (const char *c)
 	else if (!strcmp (c, "readbasis")) cmd_readbasis ();
 	else if (!strcmp (c, "loadbasis")) cmd_loadbasis ();
 	else if (!strcmp (c, "putfile")) cmd_putfile ();
+	else if (!strcmp (c, "setlim"))
+	{
+		mpq_QSdata *p = slot ();
+		int which = tok ()[0] == 'U' ? QS_PARAM_OBJULIM : QS_PARAM_OBJLLIM;
+		mpq_t q;
+		mpq_init (q);
+		tok_q (q);
+		printf ("rc %d\n", mpq_QSset_param_EGlpNum (p, which, q) ? 1 : 0);
+		mpq_clear (q);
+	}
 	else if (!strcmp (c, "setparam")) { mpq_QSdata *p = slot (); int w = tok_int (), v = tok_int (); printf ("rc %d\n", mpq_QSset_param (p, w, v) ? 1 : 0); }
 	else if (!strcmp (c, "getparam")) { mpq_QSdata *p = slot (); int w = tok_int (), v = -777, rv = mpq_QSget_param (p, w, &v); printf ("rc %d\n", rv ? 1 : 0); if (!rv) printf ("value %d\n", v); }
 	else if (!strcmp (c, "loadbasisarray"))
